@@ -211,3 +211,40 @@ Proof.
       destruct (y =? LF) eqn:Ey; [|reflexivity]. apply N.eqb_eq in Ey. subst y. contradiction. }
     split; [right; right; split; reflexivity|exact Hn0].
 Qed.
+
+(** ---------- C08: a hard failure of the underlying reader always reaches the stream of reads ---------- *)
+Lemma ru_fail evs : In Fail evs -> forall acc,
+  (exists s', ru evs acc = (Err tt, s')) \/ (exists l s', ru evs acc = (Ok l, s') /\ In Fail (future s') /\ l <> []).
+Proof.
+  induction evs as [|e r IH]; intros Hin acc; [contradiction|]. cbn [ru]. destruct e as [c| |].
+  - destruct Hin as [H|Hin]; [discriminate|]. pose proof (take_line_split c) as Hs. destruct (take_line c) as [[t rest] found]. destruct found.
+    + right. destruct Hs as (_ & _ & Hf). destruct (Hf eq_refl) as (t0 & -> & _). do 2 eexists. split; [reflexivity|]. split; [exact Hin|].
+      intros H. apply app_eq_nil in H as [_ H]. destruct t0; discriminate.
+    + apply IH. exact Hin.
+  - destruct Hin as [H|Hin]; [discriminate|]. apply IH. exact Hin.
+  - left. eexists; reflexivity.
+Qed.
+
+Lemma raw_reads_fuel_fail : forall fuel s, In Fail (future s) -> (src_size s < fuel)%nat ->
+  exists n, In (RErr IoFail n) (raw_reads_fuel fuel s).
+Proof.
+  induction fuel as [|fuel IH]; intros s Hin Hf; [lia|]. cbn [raw_reads_fuel].
+  destruct (read_line_raw s) as [r s'] eqn:E.
+  assert (Hcases: r = RErr IoFail 0 \/ (r <> REof /\ In Fail (future s'))).
+  { revert E. unfold read_line_raw, read_until. pose proof (take_line_split (pending s)) as Hs.
+    destruct (take_line (pending s)) as [[t rest] found]. destruct found.
+    - destruct Hs as (_ & _ & Hfd). destruct (Hfd eq_refl) as (t0 & -> & _).
+      destruct (negb (utf8_valid (t0 ++ [LF]))); [intros [= <- <-]; right; split; [discriminate|exact Hin]|].
+      destruct (t0 ++ [LF]) eqn:El; [destruct t0; discriminate|]. intros [= <- <-]. right. split; [discriminate|exact Hin].
+    - destruct (ru_fail (future s) Hin t) as [(s1 & ->)|(l & s1 & -> & Hin1 & Hne)].
+      + intros [= <- <-]. left. reflexivity.
+      + destruct (negb (utf8_valid l)); [intros [= <- <-]; right; split; [discriminate|exact Hin1]|].
+        destruct l; [contradiction|]. intros [= <- <-]. right. split; [discriminate|exact Hin1]. }
+  destruct Hcases as [->|[Hne Hin']].
+  - exists 0. left. reflexivity.
+  - pose proof (read_line_raw_size _ _ _ E Hne) as Hsz.
+    destruct (IH s' Hin' ltac:(lia)) as [n Hn]. exists n. destruct r; try contradiction; right; exact Hn.
+Qed.
+
+Theorem raw_reads_fail s : In Fail (future s) -> exists n, In (RErr IoFail n) (raw_reads s).
+Proof. intros H. apply raw_reads_fuel_fail; [exact H|lia]. Qed.
